@@ -23,7 +23,7 @@ RULE = ('histories of 2-12 solve() calls on one instance for 5 configurations (d
         'contains a failing solve followed by at least one further solve; distinct by configuration + texts + fault positions')
 SHARDS = {'quick': 16, 'thorough': 16}
 NHIST = {'quick': 4000, 'thorough': 150000}
-MIN_NONTRIVIAL = {'quick': 2500, 'thorough': 90000}
+MIN_NONTRIVIAL = {'quick': 1500, 'thorough': 60000}
 TIME_CAP = {'quick': 50, 'thorough': 800}
 CONFIGS = ['default', 'string-atom', 'custom-operators', 'unit-parser', 'subset-custom-order']
 FAIL_KINDS = ['unknown-atom', 'missing-operand', 'unbalanced-open', 'unbalanced-close', 'arity', 'nested-argument', 'atom-ctor']
@@ -335,7 +335,10 @@ def same(a, b):
 
 def show(o):
     if o[0] == 'v':
-        return dict(value=o[1][1] if o[1][0] == 'value' and isinstance(o[1][1], (int, float, bool, str)) else repr(o[1][1:]))
+        v = o[1][1] if o[1][0] == 'value' else None
+        if isinstance(v, (bool, int, str)) or (isinstance(v, float) and v == v and abs(v) != float('inf')):
+            return dict(value=v)
+        return dict(value=repr(o[1][1:] if o[1][0] != 'value' else v))
     if o[0] == 'e':
         return dict(raises=o[1], args=o[2][:200])
     return dict(no_result_within_steps=o[1])
